@@ -296,6 +296,7 @@ impl Check for BarrierAndStatus {
             (status, t0.elapsed())
         };
         let (out, panics) = if mt {
+            let _permit = mt_permit();
             let (rt, name) = mt_runtime(workers);
             let out = std::panic::catch_unwind(std::panic::AssertUnwindSafe(|| rt.block_on(body))).ok();
             // panics up to the return of the run; tearing the runtime down afterwards cancels tasks in arbitrary
